@@ -395,4 +395,63 @@ example : StmtWellFormed (Examples.world "webauthn.create") ⟨some (.bytes [1, 
   · intro l hl; simp [x5cList] at hl
   · intro k s b d cls h; simp [World.sigVerify, Examples.world] at h
 
+theorem ec2Coords_bytes {key : CoseKey} {pk : PubKey} (h : coseToPubKey key = .ok pk) :
+    ∀ x y, ec2Coords key = some (x, y) → (∃ xb, x = .bytes xb) ∧ ∃ yb, y = .bytes yb := by
+  intro x y hm
+  cases key with
+  | ec2 kty alg crv x' y' =>
+    simp only [ec2Coords, Option.some.injEq, Prod.mk.injEq] at hm
+    obtain ⟨rfl, rfl⟩ := hm
+    simp only [coseToPubKey] at h
+    rw [except_bind_ok] at h; obtain ⟨_, hx, h⟩ := h
+    rw [except_bind_ok] at h; obtain ⟨_, hy, _⟩ := h
+    constructor
+    · cases x' <;> simp [bytesToInt] at hx
+      exact ⟨_, rfl⟩
+    · cases y' <;> simp [bytesToInt] at hy
+      exact ⟨_, rfl⟩
+  | rsa _ _ _ _ => simp [ec2Coords] at hm
+  | okp _ _ _ _ => simp [ec2Coords] at hm
+
+/-- "well-formed registration response", spelled out: the hypotheses of the six format theorems together (each one is
+a non-library error site of the model; for a format that does not use a member the clause about it is vacuous) -/
+structure RegWellFormed (W : World) (ao : AttObj) : Prop where
+  authDataBytes : ∃ ad, ao.authDataRaw = .bytes ad
+  stmt : StmtWellFormed W ao.attStmt
+  snet : SnetWellFormed W ao.attStmt
+  keyDesc : ∀ l, x5cList ao.attStmt.x5c = .ok l → ∀ der ∈ l, ∀ c kd, W.x509Load der = some c → c.keyDesc = some kd →
+    ∃ v, W.keyDescription kd = some v
+  pubAreaBytes : ∀ c, ao.attStmt.pubArea = some c → ∃ b, c = .bytes b
+  certInfoBytes : ∀ c, ao.attStmt.certInfo = some c → ∃ b, c = .bytes b
+  pubAreaParses : ∀ b, ao.attStmt.pubArea = some (.bytes b) → ∃ pa, parsePubArea b = .ok pa
+  certInfoParses : ∀ b, ao.attStmt.certInfo = some (.bytes b) → ∃ ci, parseCertInfo b = .ok ci
+  key : ∀ att, ao.authData.attested = some att →
+    ∃ key pk, decodeCose att.publicKey = .ok key ∧ coseToPubKey key = .ok pk ∧ W.keyLoad pk = true
+  aaguid : ∀ att, ao.authData.attested = some att → att.aaguid.length = 16
+
+/-- C19 for registration, closed over all seven formats and unknown formats: a well-formed registration response is
+accepted or refused with an exception from the library's hierarchy (or the run leaves the modelled fragment). -/
+theorem semantic_reg_closed {W : World} {c : RegCred} {ex : RegExpect} {cd : ClientData} {ao : AttObj}
+    (hcd : runM W (parseClientData c.clientDataJSON) = .ok cd)
+    (hao : parseAttObj c.attestationObject = .ok ao)
+    (hroots : ∃ rs, rootsFor ex ao.fmt = .ok rs)
+    (wf : RegWellFormed W ao) :
+    MErrIn InHierarchy W (verifyReg c ex) := by
+  refine semantic_reg hcd hao (fun att h => ?_) hroots wf.aaguid (fun att roots hatt => ?_)
+  · obtain ⟨k, pk, hk, _, _⟩ := wf.key att h
+    exact ⟨k, hk⟩
+  obtain ⟨ad, had⟩ := wf.authDataBytes
+  obtain ⟨key, pk, hk, hpk, hload⟩ := wf.key att hatt
+  unfold verifyFormat
+  rw [had]
+  split
+  · exact MErrIn_reject (.inl rfl)
+  · exact fmt_u2f_in_hierarchy wf.stmt (wf.aaguid att hatt) ⟨key, hk, ec2Coords_bytes hpk⟩
+  · exact fmt_packed_in_hierarchy wf.stmt ⟨key, pk, hk, hpk, hload⟩
+  · exact fmt_tpm_in_hierarchy wf.stmt wf.pubAreaBytes wf.certInfoBytes wf.pubAreaParses wf.certInfoParses ⟨key, pk, hk, hpk⟩
+  · exact fmt_apple_in_hierarchy wf.stmt ⟨key, pk, hk, hpk, hload⟩
+  · exact fmt_safetynet_in_hierarchy wf.snet
+  · exact fmt_android_key_in_hierarchy wf.stmt wf.keyDesc ⟨key, pk, hk, hpk, hload⟩
+  · intro e he; simp at he; rw [← he]; exact .inl rfl
+
 end Webauthn.Props.C19
